@@ -369,6 +369,13 @@ package server
 //@   at-call peer.stopPeerRestarting() requires len(renewed) == 0
 //@   at-return requires called(forwardingPreservedFamilies) && len(gone) > 0 ==> called(propagateUpdate)
 
+// from C12 "routes of the families the peer listed in its GR capability stay usable but marked stale": what the peer
+// listed is per-family state of the running session; a configuration update that needs no new OPEN (prefix limits)
+// installs the families of the request with that state carried over, not with the empty state of the request
+//@ func (*peer).updatePrefixLimitConfig
+//@   claims at-return
+//@   at-return requires ret1 == nil ==> called(carrySessionState)
+
 //@ func (*BgpServer).handleFSMMessage$2$1
 //@   claims at-call
 //@   at-call s.propagateUpdate( requires called(DropStale) && !called(DropAll) && !called(dropAdjRIBIn)
